@@ -59,7 +59,7 @@ Proof.
       rewrite <- app_assoc in Hx3. exact Hx3.
   - destruct Hin as [E|Hin]; [discriminate|]. match goal with IH : forall (nm0:nat) (l0:lensrc) (p0:pressrc), In (FBuf nm0 l0 p0) _ -> _ |- _ => exact (IH _ _ _ Hin Hp') end.
   - destruct Hin as [E|Hin]; [discriminate|]. match goal with IH : forall (nm0:nat) (l0:lensrc) (p0:pressrc), In (FBuf nm0 l0 p0) _ -> _ |- _ => destruct (IH _ _ _ Hin Hp') as [bb [pre [post [L [Hx1 [Hx2 Hx3]]]]]] end.
-    exists bb, (bcv ++ pre), post, L. split; [exact Hx1|]. split; [rewrite H2', app_assoc; reflexivity|].
+    exists bb, (bcv ++ pre), post, L. split; [exact Hx1|]. split; [rewrite Hx2, app_assoc; reflexivity|].
     rewrite <- app_assoc in Hx3. exact Hx3.
   - destruct Hin as [E|Hin]; [discriminate|]. match goal with IH : forall (nm0:nat) (l0:lensrc) (p0:pressrc), In (FBuf nm0 l0 p0) _ -> _ |- _ => destruct (IH _ _ _ Hin Hp') as [bb [pre [post [L [Hx1 [Hx2 Hx3]]]]]] end.
     exists bb, ((nm, VDict dcv) :: pre), post, L. split; [exact Hx1|]. split; [rewrite Hx2; reflexivity|].
